@@ -997,6 +997,13 @@ func (g *FuncGen) stableClasses() map[string]bool {
 	c := g.c
 	for _, w := range strings.Fields(strings.ReplaceAll(g.contract.Options["stable"], ",", " ")) {
 		switch {
+		case strings.HasPrefix(w, "*"):
+			// variables (cells) of this type, e.g. package-level variables that are only ever initialised
+			t, _ := g.specType(w[1:], g.pkg)
+			if t == nil {
+				g.unsup("option stable %s: unknown type", w)
+			}
+			g.stableCache[c.cellClass(t)] = true
 		case strings.HasPrefix(w, "map["):
 			t, _ := g.specType(w, g.pkg)
 			m, ok := t.(*types.Map)
